@@ -265,10 +265,6 @@ func zeroTerm(sort string, t types.Type) string {
 func (e *Engine) freshVal(t types.Type, prefix string) Val {
 	if s, ok := scalarSort(t); ok {
 		c := e.sc.declare(prefix, s)
-		if s == SStr {
-			// strings, like slices, are shorter than 2^40 bytes (memory is finite)
-			e.sc.assume(and(app("bvsge", app("gs_len", c), bvLit(0, 64)), app("bvslt", app("gs_len", c), bvLit(1<<40, 64))))
-		}
 		return Sc{c, s}
 	}
 	switch u := under(t).(type) {
@@ -606,7 +602,7 @@ func idxTerms(path []pathElem) []string {
 	return r
 }
 
-func (e *Engine) loadLeaf(h Heap, p PtrVal, suffix, leaf string) string {
+func (e *Engine) loadLeaf(h Heap, p PtrVal, suffix, leaf string, isRef bool) string {
 	c := e.comp(p.Root, p.Path, suffix, leaf)
 	cur := e.heapGet(h, c)
 	t := e.sc.selIdx(cur, p.Base)
@@ -614,9 +610,21 @@ func (e *Engine) loadLeaf(h Heap, p PtrVal, suffix, leaf string) string {
 		t = e.sc.selIdx(t, ix)
 	}
 	r := e.sc.define("ld", leaf, t)
-	if leaf == SRef && cur == c.init && suffix != ".tag" {
+	if isRef && leaf == SRef && cur == c.init && suffix != ".tag" {
 		// objects of the pre-state are never objects allocated by this execution
 		e.sc.assume(app("bvult", r, bvLit(0x80000000, 32)))
+	} else if isRef && leaf == SRef && suffix != ".tag" && !isBVLit(r) {
+		// memory safety of Go: a reference read from memory never denotes an object that has not
+		// been allocated yet (references are numbered in allocation order within each band)
+		a := or(app("bvult", r, bvLit(uint64(0x80000000)+uint64(e.nalloc)+1, 32)), app("bvuge", r, bvLit(0x90000000, 32)))
+		if e.allocBase != "" {
+			a = and(a, app("bvule", r, app("bvadd", e.allocBase, bvLit(uint64(e.loopAllocN[e.allocBase]), 32))))
+		} else if e.lastLoopBase != "" {
+			a = and(a, app("bvult", r, app("bvadd", e.lastLoopBase, bvLit(0x10000, 32))))
+		} else {
+			a = app("bvult", r, bvLit(uint64(0x80000000)+uint64(e.nalloc)+1, 32))
+		}
+		e.sc.assume(a)
 	}
 	return r
 }
@@ -718,7 +726,7 @@ func (e *Engine) load(h Heap, p PtrVal, t types.Type) Val {
 		return Sc{e.sc.define("lda", arrSort(SI64, es), tm), arrSort(SI64, es)}
 	}
 	if s, ok := scalarSort(t); ok {
-		return Sc{e.loadLeaf(h, p, "", s), s}
+		return Sc{e.loadLeaf(h, p, "", s, s == SRef && bitsOf(t) == 0), s}
 	}
 	switch u := under(t).(type) {
 	case *types.Struct:
@@ -728,7 +736,7 @@ func (e *Engine) load(h Heap, p PtrVal, t types.Type) Val {
 		}
 		return sv
 	case *types.Slice:
-		sv := SliceVal{e.loadLeaf(h, p, ".arr", SRef), e.loadLeaf(h, p, ".off", SI64), e.loadLeaf(h, p, ".len", SI64)}
+		sv := SliceVal{e.loadLeaf(h, p, ".arr", SRef, true), e.loadLeaf(h, p, ".off", SI64, false), e.loadLeaf(h, p, ".len", SI64, false)}
 		if len(e.sc.binders) == 0 && !isBVLit(sv.Len) {
 			// invariants of every Go slice value: 0 <= len (bounded by memory), nil has length 0
 			e.sc.assume(and(app("bvsge", sv.Len, bvLit(0, 64)), app("bvslt", sv.Len, bvLit(1<<40, 64)), app("bvsge", sv.Off, bvLit(0, 64)), app("bvslt", sv.Off, bvLit(1<<40, 64)),
@@ -736,7 +744,7 @@ func (e *Engine) load(h Heap, p PtrVal, t types.Type) Val {
 		}
 		return sv
 	case *types.Interface:
-		return IfaceVal{e.loadLeaf(h, p, ".tag", STag), e.loadLeaf(h, p, ".ref", SRef), e.loadLeaf(h, p, ".str", SStr), e.loadLeaf(h, p, ".bv", SI64)}
+		return IfaceVal{e.loadLeaf(h, p, ".tag", STag, false), e.loadLeaf(h, p, ".ref", SRef, true), e.loadLeaf(h, p, ".str", SStr, false), e.loadLeaf(h, p, ".bv", SI64, false)}
 	case *types.Array:
 		fail("load of array of non-scalar elements %s", t)
 	}
